@@ -181,7 +181,7 @@ impl Check for C17 {
                     // auto-wrap: printing in the last column parks the cursor past it iff auto-wrap is on
                     {
                         let mut fk = replay_plain(&t.config, &prefix);
-                        fk.feed_str("\x1b[500CX");
+                        fk.feed_str("\x1b[9999CX");
                         let got = fk.cursor().col == cols;
                         if got != exp.awm {
                             return Verdict::Violation { rule: "C17/auto-wrap-mode".into(), detail: format!("{}: auto-wrap after the restore is {}", ctx_s, got) };
@@ -205,7 +205,7 @@ impl Check for C17 {
     }
     fn meta(&self) -> Meta {
         Meta {
-            rule: "sessions dense in DECSC/SCOSC/?1048h/?1049h and DECRC/SCORC/?1048l/?1049l with moves, prints, SGR, DECOM/DECAWM, margins, excursions to the other screen with their own saves, DECSTR, RIS and resizes in between, one character per call; at every (single-mode) restore: cursor == the position saved most recently on that screen (column clamped to the last real column at save time), or inside the screen if resized since; pen, origin mode and auto-wrap mode measured by probes on forks (print X; DECSTBM 2;rows homes to row 1 iff origin; CSI 500C X parks past the last column iff auto-wrap) == the saved context of that screen, or power-on defaults if nothing was saved / DECSTR / RIS intervened; non-trivial = >= 1 restore judged; distinct = digests of restored positions + final screen",
+            rule: "sessions dense in DECSC/SCOSC/?1048h/?1049h and DECRC/SCORC/?1048l/?1049l with moves, prints, SGR, DECOM/DECAWM, margins, excursions to the other screen with their own saves, DECSTR, RIS and resizes in between, one character per call; at every (single-mode) restore: cursor == the position saved most recently on that screen (column clamped to the last real column at save time), or inside the screen if resized since; pen, origin mode and auto-wrap mode measured by probes on forks (print X; DECSTBM 2;rows homes to row 1 iff origin; CSI 9999C X parks past the last column iff auto-wrap) == the saved context of that screen, or power-on defaults if nothing was saved / DECSTR / RIS intervened; non-trivial = >= 1 restore judged; distinct = digests of restored positions + final screen",
             assumptions: vec!["expected context = the hidden-state tracker's per-screen saved context (pen = fold of the SGR functions reported by the lock-step parser)", "multi-mode DECSET/DECRST sequences are tracked but not judged", "origin probe needs >= 3 rows", "a run in which avt panics is abandoned"],
             real: vec!["avt::Vt (run and forks)", "avt::parser::Parser (lock-step)"],
             simulated: vec!["App (save/restore-dense producer)", "Window (resizes between save and restore)", "probe forks (replay of the event prefix)"],
